@@ -193,7 +193,7 @@ def _cms_large(job):
 
 # ---------------- bounded counter ---------------------------------------------------------------
 
-SYMS = ['a', 'b', 'c', 1]
+SYMS = ['a', 'x' * 130 + 'p', 'x' * 130 + 'q', 1]   # two long strings that differ only after 130 characters
 
 
 class CounterWorld:
